@@ -443,6 +443,7 @@ class Interp:
                 self.exec_block(st.body, env)
                 env.pop("<dead>", None)
                 self.join_env(env, pre, st)
+            self._tree_fold(st, env)
             self.exec_block(st.orelse, env)
         elif isinstance(st, ast.Return):
             v = self.ev(st.value, env) if st.value is not None else V("none")
@@ -466,6 +467,32 @@ class Interp:
             pass
         else:
             self.c.unknown_constructs.append((self.f.key, type(st).__name__))
+
+    def _tree_fold(self, st, env):
+        """`while len(L) > 1:` whose body rebuilds L from sums of its elements leaves the fold of all elements in L[0]
+        (that every element is covered is the business of the COVER rules, not of the typing)."""
+        t = st.test
+        if isinstance(t, ast.NamedExpr):
+            return
+        if not (isinstance(t, ast.Compare) and len(t.ops) == 1 and isinstance(t.left, ast.Call) and isinstance(t.left.func, ast.Name) and t.left.func.id == "len" and len(t.left.args) == 1 and isinstance(t.left.args[0], ast.Name)):
+            return
+        k = const_value(t.comparators[0])
+        if not ((isinstance(t.ops[0], ast.Gt) and k == 1) or (isinstance(t.ops[0], ast.GtE) and k == 2) or (isinstance(t.ops[0], ast.NotEq) and k == 1)):
+            return
+        name = t.left.args[0].id
+        v = env.get(name)
+        if v is None or v.k != "list" or v.elem is None:
+            return
+        adds = any((isinstance(x, ast.BinOp) and isinstance(x.op, ast.Add)) or (isinstance(x, ast.AugAssign) and isinstance(x.op, ast.Add)) or (isinstance(x, (ast.Attribute, ast.Name)) and src(x).split(".")[-1] in ("add", "iadd")) for b in st.body for x in ast.walk(b))
+        rebound = any(isinstance(x, ast.Assign) and any(isinstance(t_, ast.Name) and t_.id == name for t_ in x.targets) for b in st.body for x in ast.walk(b))
+        if not (adds and rebound):
+            return
+        el = v.elem
+        if getattr(el, "part", False) or any_part([el]):
+            self.c.fold_sites.append((self.f.key, st, el))
+            if self.c.track_s and el.is_numlike and not el.wild and not el.is_unk and el.s == 0:
+                self.violation("EXT.D4", st, f"per-block values of type {fmt(el)} are summed pairwise over the blocks: they are intensive (S^0)")
+        env[name] = V("list", axis="?1", elem=mark_part(el, False))
 
     def static_test(self, test, env):
         """Truth value of a type/array-kind switch when it is determined by the abstract values or by the run's
@@ -513,6 +540,12 @@ class Interp:
                 n = len(v.sh)
                 op = test.ops[0]
                 return {ast.Eq: n == k, ast.NotEq: n != k, ast.Lt: n < k, ast.LtE: n <= k, ast.Gt: n > k, ast.GtE: n >= k}.get(type(op))
+        if isinstance(test, ast.Compare) and len(test.ops) == 1 and isinstance(test.comparators[0], ast.Constant) and isinstance(test.comparators[0].value, int) and not isinstance(test.comparators[0].value, bool) and isinstance(test.left, (ast.Name, ast.Attribute, ast.BinOp)) and type(test.ops[0]) in (ast.Eq, ast.NotEq, ast.Lt, ast.LtE, ast.Gt, ast.GtE):
+            v = self.ev(test.left, env)
+            k = test.comparators[0].value
+            if v.is_numlike and v.wild and v.count_of is None and isinstance(v.cval, (int, float)) and not isinstance(v.cval, bool) and float(v.cval).is_integer() and v.note == "rank":
+                n = v.cval
+                return {ast.Eq: n == k, ast.NotEq: n != k, ast.Lt: n < k, ast.LtE: n <= k, ast.Gt: n > k, ast.GtE: n >= k}.get(type(test.ops[0]))
         if isinstance(test, ast.Compare) and len(test.ops) == 1 and isinstance(test.ops[0], (ast.Is, ast.IsNot)) and const_value(test.comparators[0]) is None and isinstance(test.comparators[0], ast.Constant) and isinstance(test.left, ast.Name):
             v = self.ev(test.left, env)
             if v.k == "none":
@@ -555,6 +588,11 @@ class Interp:
             if a is None or b is None:
                 env[k] = a if b is None else b
             else:
+                if not arm_switch and a is not b and a.is_numlike and b.is_numlike and not a.wild and not b.wild and not a.is_unk and not b.is_unk and a.dim_key() != b.dim_key() and not k.startswith("<") and (st.orelse or True):
+                    # both arms bind the same name and what follows uses it as one quantity: it cannot have two dimensions
+                    both = all(any(isinstance(x, ast.Name) and x.id == k and isinstance(x.ctx, ast.Store) for s_ in arm for x in ast.walk(s_)) for arm in (st.body, st.orelse)) if st.orelse else False
+                    if both:
+                        self.violation("DIM.ARMS", st, f"the two arms of `if {src(st.test)[:40]}` give `{k}` different dimensions: {fmt(a.copy(sh=None))} vs {fmt(b.copy(sh=None))}; one of them does not compute the quantity the code after the test expects")
                 env[k] = self.join(a, b, st, name=k, strict=arm_switch)
 
     def _depends_on(self, expr, state, loop):
@@ -719,6 +757,12 @@ class Interp:
             return V("tuple", tup=tuple(self.join(x, y, node, strict=strict) for x, y in zip(a.tup, b.tup)), note=a.note)
         if a.k == "obj":
             return a if a.obj == b.obj else unk("join of objects")
+        if a.k == "dict":
+            if a.elem is None:
+                return b
+            if b.elem is None:
+                return a
+            return V("dict", elem=self.join(a.elem, b.elem, node, strict=strict))
         return a
 
     # -- assignment --------------------------------------------------------------------------------
@@ -752,6 +796,8 @@ class Interp:
                     env[t.value.id] = v.copy(sh=base.sh, cval=None, count_of=None, index_of=None) if not v.wild else base
                 elif not v.wild and not base.wild and base.dim_key() != v.dim_key():
                     self.violation("DIM.D1", node, f"element store of {fmt(v)} into a container of {fmt(base)}")
+            elif base.k == "dict" and isinstance(t.value, ast.Name):
+                env[t.value.id] = V("dict", elem=v if base.elem is None else self.join(base.elem, v, node))
             elif base.k == "list" and isinstance(t.value, ast.Name):
                 env[t.value.id] = V("list", axis=base.axis, elem=v if base.elem is None or base.elem.k == "none" else self.join(base.elem, v, node))
         else:
@@ -891,6 +937,10 @@ class Interp:
                 for x in tp:
                     x.part = base.part
                 return V("tuple", tup=tp, note="shape")
+            if e.attr == "ndim" and base.sh is not None:
+                r_ = wild(sh=(), cval=len(base.sh))
+                r_.note = "rank"
+                return r_
             if e.attr in ("ndim", "size", "nbytes", "dtype"):
                 return wild(sh=())
             if e.attr == "blocks":
@@ -919,7 +969,13 @@ class Interp:
         return V("list", axis=ax, elem=el)
 
     def ev_Dict(self, e, env):
-        return unk("dict")
+        if any(k is None for k in e.keys):
+            return unk("dict")
+        el = None
+        for x in e.values:
+            v = self.ev(x, env)
+            el = v if el is None else self.join(el, v, e)
+        return V("dict", elem=el)
 
     def ev_Set(self, e, env):
         return V("set")
@@ -958,6 +1014,8 @@ class Interp:
             return self.ev(e.orelse, env)
         self.ev(e.test, env)
         a, b = self.ev(e.body, env), self.ev(e.orelse, env)
+        if a is not b and a.is_numlike and b.is_numlike and not a.wild and not b.wild and not a.is_unk and not b.is_unk and a.dim_key() != b.dim_key():
+            self.violation("DIM.ARMS", e, f"the two arms of `{src(e)[:60]}` have different dimensions: {fmt(a.copy(sh=None))} vs {fmt(b.copy(sh=None))}; whatever uses the value treats it as one quantity")
         return self.join(a, b, e)
 
     def ev_BoolOp(self, e, env):
@@ -1047,6 +1105,12 @@ class Interp:
         if a.k == "list" and isinstance(op, ast.Mult):
             ax = b.count_of if b.is_numlike and b.count_of else a.axis
             return V("list", axis=ax, elem=a.elem)
+        if a.k == "tuple" and b.k == "tuple" and isinstance(op, ast.Add):
+            return V("tuple", tup=(a.tup + b.tup) if a.tup is not None and b.tup is not None else None, note="shape" if "shape" in (a.note, b.note) else "")
+        if a.k == "tuple" and isinstance(op, ast.Mult) and b.is_numlike:
+            if a.tup is not None and isinstance(b.cval, (int, float)) and float(b.cval).is_integer() and 0 <= b.cval <= 8:
+                return V("tuple", tup=a.tup * int(b.cval), note=a.note)
+            return V("tuple", tup=None, note=a.note)
         if a.k == "str" or b.k == "str":
             return V("str")
         if a.k == "obj" and b.k == "obj" and isinstance(op, ast.Add):
@@ -1071,7 +1135,10 @@ class Interp:
                 return self.log_addsub(op, a, b, sh, node)
             r = self.agree(a, b, node, "addition" if isinstance(op, ast.Add) else "subtraction")
             if a.wild and b.wild:
-                return wild(sh, cv)
+                w_ = wild(sh, cv)
+                if "rank" in (a.note, b.note) and cv is not None and (a.note == "rank" or a.cval is not None) and (b.note == "rank" or b.cval is not None):
+                    w_.note = "rank"  # a number of axes plus / minus a literal: still known at analysis time
+                return w_
             base = b if a.wild else a
             cnt = None
             idx = None
